@@ -145,6 +145,16 @@ L_CAP = '[ link ]\nresname "A"\n[ atoms ]\nBB {"replace": {"atype": "CAP"}}\n[ n
 L_CAP_PATTERN = '[ link ]\nresname "A"\n[ atoms ]\nBB {"replace": {"atype": "CAP"}}\n[ non-edges ]\nBB +BB\n[ patterns ]\nBB {"atype": "TA"}\n'
 L_PREV = '[ link ]\nresname "A|B"\n[ bonds ]\nBB -BB 1 0.42 420\n'
 L_PATTERN = '[ link ]\nresname "A|B"\n[ bonds ]\nBB +BB 1 0.60 600\n[ patterns ]\nBB +BB {"atype": "TB"}\n'
+# a link with a pattern AND a replacement: where no pattern holds the link is vetoed as a whole, its replacement included
+L_PATTERN_REPL = ('[ link ]\nresname "A|B"\n[ atoms ]\nBB {"replace": {"atype": "Q"}}\n[ bonds ]\nBB +BB 1 0.60 600\n'
+                  '[ patterns ]\nBB +BB {"resname": "B"}\n')
+
+
+def rule_pattern_replace(R):
+    inter, _ = rule_pattern(R)
+    return inter, {(it[1][0][0], "BB"): {"atype": "Q"} for it in inter}
+
+
 L_OVER1 = '[ link ]\nresname "A|B"\n[ bonds ]\nBB +BB 1 0.40 400\n'
 L_OVER2 = '[ link ]\nresname "A|B"\n[ bonds ]\nBB +BB 1 0.90 900\n'
 L_OVER2_V2 = '[ link ]\nresname "A|B"\n[ bonds ]\nBB +BB 1 0.90 900 {"version": 2}\n'
@@ -260,6 +270,7 @@ CATALOGUE = {
     "replace": (L_REPL, rule_replace),
     "end cap with non-edge": (L_BOND + L_CAP, rule_cap_after(rule_next_bond("ABD", ("1", "0.40", "400")))),
     "pattern": (L_PATTERN, rule_pattern),
+    "pattern with replacement": (L_PATTERN_REPL, rule_pattern_replace),
     "end cap with non-edge and pattern": (L_BOND + L_CAP_PATTERN, rule_cap_after(rule_next_bond("ABD", ("1", "0.40", "400")))),
     "resname on some atoms only": (L_ATOM_RESNAME, rule_atom_resname),
     "labelled (circle) link": (L_CIRCLE, rule_circle),
@@ -273,7 +284,7 @@ CATALOGUE = {
 Q_LINKS = ["next bond", "three-residue angle", "later residue (>)", "other residue (*)", "replace", "end cap with non-edge",
            "same atoms, same version: last wins", "pattern", "remove atom at chain start", "remove atom at chain end",
            "resname on some atoms only", "centre with > and >> neighbours", "labelled (circle) link",
-           "replace, then a link typed on the replaced attribute", "end cap with non-edge and pattern"]
+           "replace, then a link typed on the replaced attribute", "end cap with non-edge and pattern", "pattern with replacement"]
 
 
 def observed(meta):
